@@ -148,7 +148,7 @@ Proof.
   unfold do_op. apply h_mutate_real; [exact Hreal|auto|]. unfold apply_op.
   eapply h_bind; [apply h_get_fs|]. intros f1. eapply h_bind; [apply h_get_ks|]. intros k.
   apply h_on_fres; [auto|]. intros g f' [-> ->] Hr. unfold open_trunc, lstat in Hr. rewrite t_absent in Hr.
-  destruct (is_dir f (pathdir t)); [|discriminate]. now injection Hr as <-.
+  destruct (is_dir f (pathdir t) && names_fit t); [|discriminate]. now injection Hr as <-.
 Qed.
 
 Lemma cursor_exact chunks : forall x,
@@ -175,7 +175,7 @@ Qed.
 Lemma rename_exact x g' : rename (f ++ [(t, File x)]) t p = FOk g' -> g' = rewritten f p x.
 Proof.
   unfold rename, lstat. rewrite (fs_get_app_none _ _ _ t_absent). cbn [fs_get]. rewrite beq_refl.
-  destruct (negb (is_dir (f ++ [(t, File x)]) (pathdir p))); [discriminate|].
+  destruct (negb (is_dir (f ++ [(t, File x)]) (pathdir p)) || negb (names_fit p)); [discriminate|].
   destruct (at_or_under t p).
   { destruct (beq t p) eqn:E; [apply beq_true in E; now apply t_neq_p in E|discriminate]. }
   assert (M : map (move_entry t p) (filter (fun en => negb (beq (fst en) p)) (f ++ [(t, File x)])) = rewritten f p x).
